@@ -38,7 +38,7 @@ def rule_oracle(rl, st, tr):
         if abs(st['t'] - s - d) <= 1e-9 * max(1.0, abs(s + d)) and not (rl['start'][1] == rl['dur'][1] == st['tu']):
             return ('skip', 'time within rounding of a window edge')
         return ('val', float(rl['value'])) if s <= st['t'] <= s + d else ('none',)
-    x = st['pos'][rl['enc']]
+    x = st['pos'][rl['enc'] % len(st['pos'])]
     target = sif('AngularPosition', rl['target'])
     sc = max(abs(x), abs(target), 1e-9)
     if t == 'reach':
@@ -62,7 +62,7 @@ def rule_oracle(rl, st, tr):
     if t == 'limit':
         if x > target:
             return ('none',)
-        s = st['speed'][rl['tach']] / m['w0']
+        s = st['speed'][rl['tach'] % len(st['speed'])] / m['w0']
         e = sif('Current', rl['ilim']) / m['imax']
         n = m['i0'] / m['imax']
         disc = (s + e) ** 2 - 4 * n * s
@@ -189,7 +189,7 @@ def eval_controlled(ctx, specs, props):
                     break
                 # while StartLimitCurrent is in force and not clipped the recorded current equals the limit
                 app = [(rl, o) for rl, o in zip(spec['rules'], outs) if o[0] == 'val']
-                if len(app) == 1 and app[0][0]['type'] == 'limit' and -1 < app[0][1][1] < 1 and app[0][0]['tach'] == 0:
+                if len(app) == 1 and app[0][0]['type'] == 'limit' and -1 < app[0][1][1] < 1 and app[0][0]['tach'] % tr['n'] == 0:
                     ilim = sif('Current', app[0][0]['ilim'])
                     if ilim > m['i0'] * (1 + 1e-9) and m['i0'] > 0:
                         cur = tr['els'][0]['electric current'][j]
